@@ -170,19 +170,22 @@ def run(rep):
         # comes after it shows only then
         for f in [f for f in frs if len(f) <= (400 if quick else 70000)][:24 if quick else 80]:
             streams.append([f, small[(len(f) + len(streams)) % len(small)]])
-        # ... and followed by MANY: more than 256 and more than 65536 bytes already buffered behind a frame (sizes at which a
-        # length stops fitting one or two octets, and at which small-integer identity ends)
-        for f in [f for f in frs if len(f) <= 400][:6 if quick else 20]:
-            for room in (300,) if quick else (300, 66000):
+        # ... and followed by MANY: more than 256 bytes already buffered behind a frame (a size at which a length stops fitting
+        # one octet, and at which small-integer identity ends)
+        heavy = set()
+        for i, f in enumerate([f for f in frs if len(f) <= 400][:6 if quick else 10]):
+            for room in (300,):          # (66000 bytes behind a frame made single TLC shards exceed their time limit)
                 tail = []
                 while sum(len(x) for x in tail) < room:
                     tail.append(small[(len(tail) + len(f)) % len(small)])
                 streams.append([f] + tail)
-        for frs_ in streams:
+                if room > 300:
+                    heavy.add(len(streams) - 1)          # a thousand frames: a dozen schedules are enough
+        for si, frs_ in enumerate(streams):
             total = sum(len(f) for f in frs_)
             scheds = schedules(total, rng, quick)
             if total > 120:
-                scheds = scheds[:1] + rng.sample(scheds[1:], min(len(scheds) - 1, 40 if quick else 300))
+                scheds = scheds[:1] + rng.sample(scheds[1:], min(len(scheds) - 1, 12 if si in heavy else 40 if quick else 300))
             for ch in scheds:
                 tid += 1
                 t = reader_run(tid, u['unit'], u['cls'], frs_, ch)
